@@ -376,6 +376,7 @@ func runC05(c *Ctx, w *World, r *Report) {
 		sort.Strings(leaks)
 		r.Check(len(leaks) == 0, "R-TABLE-PRIVATE", "bmtree.idxToPath", w.Pos(pos), "a result of "+strings.Join(leaks, ", ")+" may alias the table", fmt.Sprintf("%d functions of bmtree summarised, no result rooted at the table", nf))
 	}
+	ReportShiftSign(w, r, "bmtree.IndexToPath", map[int]bool{0: true}, "treeheight is a tree height, 0..30 by contract")
 	if !ok {
 		return
 	}
